@@ -204,10 +204,13 @@ class Bits:
 
         """
         bs = self.__class__._create_from_bitstype(bs)
-        s = self._copy() if len(bs) <= len(self) else bs._copy()
         if len(bs) <= len(self):
+            s = self._copy()
             s._addright(bs)
         else:
+            # Copy the longer operand, but always into the class of the left operand.
+            s = self.__class__()
+            s._bitstore = bs._bitstore._copy()
             s._addleft(self)
         return s
 
